@@ -383,6 +383,11 @@ def apply_recipe(sim, name):
         sim.collisions = _COLLISIONS
     if name.startswith('tx:'):            # explicit transactions (fork replays)
         raise ValueError('use add_txs')
+    if name.startswith('burn+'):
+        # the coinbase pays only OP_FALSE OP_RETURN: it touches no script hash at all
+        out = RECIPES[name[5:]](sim)
+        out = [] if isinstance(out, tuple) else out
+        return sim.add_block([sim.cb('F')] + out, name)
     out = RECIPES[name](sim)
     if isinstance(out, tuple) and out[0] == 'collision-coinbase':
         cb = sim.collisions[out[1]]
